@@ -36,6 +36,14 @@ class Violation(Exception):
     """The property is violated by this case."""
 
 
+class StepLimit(BaseException):
+    """Raised by a tracing harness when a call exceeds its deterministic step budget."""
+
+
+class ShrinkTimeout(BaseException):
+    """Raised to leave Hypothesis when the shrinking budget is used up (the best case so far is kept)."""
+
+
 class Result:
     __slots__ = ("nontrivial", "classes", "known")
 
@@ -128,7 +136,7 @@ def call(fn, *a, **kw):
             return ("exit", e.code)
         except CommandLineError as e:
             return ("cle", str(e))
-        except Violation:
+        except (Violation, StepLimit, ShrinkTimeout):
             raise
         except BaseException as e:  # noqa
             if isinstance(e, (KeyboardInterrupt, MemoryError)):
@@ -264,18 +272,15 @@ def run_shard(pid, tier, seed, shard, nshards, outpath):
     stats = Stats()
     t0 = time.time()
     budget = mod.budget(tier)
-    shrink_budget = budget.get("shrink_s", 60 if tier == "quick" else 180)
+    shrink_budget = budget.get("shrink_s", 30 if tier == "quick" else 120)
     failing = {}  # hash -> message, cases seen failing in this process
     first_fail_at = [None]
 
     def evaluate(case, count=True):
         h = case_hash(case)
         if first_fail_at[0] is not None and time.time() - first_fail_at[0] > shrink_budget:
-            # out of shrinking budget: answer consistently for cases already known to fail,
-            # and stop exploring new shrink candidates
-            if h in failing:
-                raise Violation(failing[h])
-            return
+            # out of shrinking budget: keep the smallest failing case seen so far
+            raise ShrinkTimeout()
         try:
             res = mod.run_case(case)
             for k in res.known:
@@ -329,7 +334,7 @@ def run_shard(pid, tier, seed, shard, nshards, outpath):
 
             try:
                 test()
-            except Violation:
+            except (Violation, ShrinkTimeout):
                 pass
             except hypothesis.errors.Flaky as e:
                 # a violation that does not reproduce deterministically is a harness problem
@@ -356,6 +361,8 @@ def run_shard(pid, tier, seed, shard, nshards, outpath):
                 )
             except Violation as v:
                 stats.violation = (getattr(v, "case", {"history": "see message"}), str(v))
+            except ShrinkTimeout:
+                pass
     except BaseException as e:  # harness error
         out = {
             "error": "%s: %s\n%s" % (type(e).__name__, e, traceback.format_exc()),
